@@ -64,6 +64,16 @@ pub fn run_hostile(a: &Args) {
                     let _ = std::fs::write(&p, &img);
                     let hex: String = p.bytes().map(|b| format!("{b:02x}")).collect(); lines.push(format!("filex {hex} 0 1 r-x"));
                 }
+                {   // ... and a library without program headers whose dynamic section ends without the terminating entry
+                    let mut img = synth_so(&(0..64).map(|_| rng.next() as u8).collect::<Vec<u8>>(), Some(&[5u8; 20]), Some("libnonull.so"));
+                    let pat: Vec<u8> = [0u64, 0u64].iter().flat_map(|v| v.to_le_bytes()).collect();
+                    // the dynamic entries are (14,1) (5,0) (10,len) (0,0): turn the terminator into one more ordinary entry and drop DT_SONAME
+                    if let Some(pos) = img.windows(16).position(|w| w == &pat[..] ).filter(|p| *p >= 48) {
+                        let start = pos - 48; if img[start..start + 8] == 14u64.to_le_bytes() { img[start..start + 8].copy_from_slice(&1u64.to_le_bytes()); img[pos..pos + 8].copy_from_slice(&1u64.to_le_bytes()); } }
+                    let p = format!("{absdir}/c02-{}-{case}-nonull.so", std::process::id());
+                    let _ = std::fs::write(&p, &img);
+                    let hex: String = p.bytes().map(|b| format!("{b:02x}")).collect(); lines.push(format!("filex {hex} 0 1 r-x"));
+                }
                 for j in 0..3 {
                     let mut img = synth_so(&(0..64).map(|_| rng.next() as u8).collect::<Vec<u8>>(), Some(&[7u8; 20]), Some("libc02.so"));
                     for _ in 0..rng.range(1, 4) { let w = *rng.pick(&[1usize, 2, 4, 8]); let off = (rng.below(img.len() as u64 - 8) as usize / w) * w; let v = *rng.pick(&[0u64, 1, u64::MAX, u64::MAX - 7, 0x7fff_ffff_ffff_ffff, img.len() as u64, 0x1000]); img[off..off + w].copy_from_slice(&v.to_le_bytes()[..w]); }
@@ -145,6 +155,7 @@ pub fn run_hostile(a: &Args) {
         unsafe { libc::kill(target.pid, libc::SIGCONT); }
         drop(k2);
         let _ = std::fs::remove_file(format!("{absdir}/c02-{}-{case}-dyn.so", std::process::id()));
+        let _ = std::fs::remove_file(format!("{absdir}/c02-{}-{case}-nonull.so", std::process::id()));
         for j in 0..3 { for suf in ["1", "2é3", "1.2.3é4", "x"] { let _ = std::fs::remove_file(format!("{absdir}/c02-{}-{case}-{j}.so.{suf}", std::process::id())); } }
         let mut l = Line::new("const"); l.u(case).u(0);
         let mut res = Line::bare();
